@@ -29,7 +29,7 @@ pub struct Hist {
     /// world (declared schema) at BEGIN, restored on ROLLBACK
     begin_world: Option<Box<World>>,
     /// C14: model of the savepoint stack: (name, table contents when it was created)
-    sp_stack: Vec<(String, BTreeMap<String, TableSnap>)>,
+    sp_stack: Vec<(String, BTreeMap<String, TableSnap>, bool)>,
     dead_savepoints: Vec<String>,
 }
 
@@ -335,7 +335,7 @@ impl Scenario for Hist {
                 if !self.world.in_tx {
                     Op::new(Kind::Begin, "BEGIN".into())
                 } else if sw.with_savepoints && rng.chance(7, 8) {
-                    let live: Vec<String> = self.sp_stack.iter().map(|(n, _)| n.clone()).collect();
+                    let live: Vec<String> = self.sp_stack.iter().map(|(n, _, _)| n.clone()).collect();
                     match rng.below(10) {
                         0..=3 => {
                             let n = if !self.dead_savepoints.is_empty() && rng.chance(1, 4) {
@@ -489,6 +489,9 @@ impl Scenario for Hist {
                 Kind::Delete => {
                     if let (Some(Out::Rows(s)), Some(pre), Some(post), Out::Count(n)) = (&sel, &pre_rows, table_rows(&self.sut, &table), &out) {
                         cx.eval("c09.delete");
+                        if bag_minus(&vbag(pre), &vbag(s)).is_none() {
+                            return Step::EndForeign("select_returned_rows_not_in_table".into());
+                        }
                         if *n != s.len() {
                             return cx.violation("c09.delete_count", format!("{} reported {} rows, SELECT with the same predicate returns {}", op.sql, n, s.len()));
                         }
@@ -506,6 +509,9 @@ impl Scenario for Hist {
                 Kind::Update => {
                     if let (Some(Out::Rows(s)), Some(Out::Rows(im)), Some(pre), Some(post), Out::Count(n)) = (&sel, &img, &pre_rows, table_rows(&self.sut, &table), &out) {
                         cx.eval("c09.update");
+                        if bag_minus(&vbag(pre), &vbag(s)).is_none() {
+                            return Step::EndForeign("select_returned_rows_not_in_table".into());
+                        }
                         if *n != s.len() {
                             return cx.violation("c09.update_count", format!("{} reported {} rows, SELECT with the same predicate returns {}", op.sql, n, s.len()));
                         }
@@ -581,16 +587,21 @@ impl Scenario for Hist {
             }
             Kind::Savepoint if out.is_ok() => {
                 let n = op.name.clone().unwrap_or_default();
-                self.sp_stack.push((n, snapshot(&self.sut, false).tables));
+                self.sp_stack.push((n, snapshot(&self.sut, false).tables, false));
             }
             Kind::RollbackTo | Kind::Release => {
                 let n = op.name.clone().unwrap_or_default();
-                let pos = self.sp_stack.iter().rposition(|(x, _)| *x == n);
+                let pos = self.sp_stack.iter().rposition(|(x, _, _)| *x == n);
                 if cx.is("C14") {
                     match (pos, out.is_ok()) {
                         (None, true) => {
                             cx.eval("c14.destroyed_savepoint");
                             return cx.violation("c14.destroyed_savepoint", format!("{} succeeded although that savepoint was never created or has been destroyed", op.sql));
+                        }
+                        (Some(p), false) if self.sp_stack[p].2 => {
+                            // established after a savepoint that was since RELEASEd: the statement does
+                            // not say whether it survives, so either answer is accepted
+                            self.sp_stack.remove(p);
                         }
                         (Some(_), false) => {
                             cx.eval("c14.savepoint_alive");
@@ -603,11 +614,14 @@ impl Scenario for Hist {
                         _ => {}
                     }
                 }
+                let pos = self.sp_stack.iter().rposition(|(x, _, _)| *x == n);
                 if let (Some(p), true) = (pos, out.is_ok()) {
                     let now = snapshot(&self.sut, false).tables;
                     if op.kind == Kind::RollbackTo {
-                        for (d, _) in self.sp_stack.drain(p + 1..) {
-                            self.dead_savepoints.push(d);
+                        for (d, _, maybe) in self.sp_stack.drain(p + 1..) {
+                            if !maybe {
+                                self.dead_savepoints.push(d);
+                            }
                         }
                         if cx.is("C14") {
                             cx.eval("c14.rollback_to");
@@ -620,8 +634,11 @@ impl Scenario for Hist {
                             }
                         }
                     } else {
-                        for (d, _) in self.sp_stack.drain(p..) {
-                            self.dead_savepoints.push(d);
+                        // RELEASE destroys the named savepoint; whether later ones survive is not stated
+                        let (d, _, _) = self.sp_stack.remove(p);
+                        self.dead_savepoints.push(d);
+                        for e in self.sp_stack.iter_mut().skip(p) {
+                            e.2 = true;
                         }
                         if cx.is("C14") {
                             if let Some(pre) = &c14_pre {
@@ -669,7 +686,10 @@ impl Scenario for Hist {
                     Kind::Update => match &img {
                         Some(Out::Rows(news)) if news.len() == olds.len() => {
                             let pairs: Vec<_> = olds.iter().cloned().zip(news.iter().cloned()).collect();
-                            Some(fkmodel::update(&self.world.tables, pre, &table, &pairs))
+                            {
+                                let assigned: Vec<usize> = self.world.tables.get(&table).map(|d| op.sets.iter().filter_map(|(c, _)| d.col_index(c)).collect()).unwrap_or_default();
+                                Some(fkmodel::update(&self.world.tables, pre, &table, &pairs, &assigned))
+                            }
                         }
                         _ => None,
                     },
